@@ -191,6 +191,7 @@ func (ex *Exec) registerIntrinsics() {
 	I["verif:verifite"] = func(ex *Exec, st *State, _ *ssa.CallCommon, a []Value) []Outcome {
 		return ret1(st, tt.Ite(a[0].(*Term), a[1].(*Term), a[2].(*Term)))
 	}
+	I["verif:verifdebugf"] = func(ex *Exec, st *State, _ *ssa.CallCommon, a []Value) []Outcome { return ret1(st, nil) }
 	I["verif:verifsymbolic"] = func(ex *Exec, st *State, _ *ssa.CallCommon, a []Value) []Outcome {
 		return ret1(st, tt.True)
 	}
